@@ -128,3 +128,6 @@ Proof. vm_compute. reflexivity. Qed.
 
 Lemma inventory_env_reads : strings_eqb inv_env_reads expected_env_reads = true.
 Proof. vm_compute. reflexivity. Qed.
+
+Lemma inventory_kernel_mutations : strings_eqb inv_kernel_mutations expected_kernel_mutations = true.
+Proof. vm_compute. reflexivity. Qed.
